@@ -35,6 +35,8 @@ type Outcome struct {
 	Wall      time.Duration
 	Signature string // shape class for known-findings
 	KnownHits []KnownHit
+	Replay    map[string]any // extra data a replay needs
+	Names     []string
 }
 
 // KnownHit is a counterexample whose shape class is listed in known_findings.json.
@@ -316,6 +318,9 @@ func (c *Checker) CheckVerdicts(p Program, sc Scope, code string, known map[stri
 	used := map[string]bool{}
 	cs := ClassOf(p)
 	for _, v := range p.Validations {
+		if v.Level == "" {
+			continue // defined but not listed under any level: must never be reported
+		}
 		for i := 0; i < g.N; i++ {
 			k := rkey(v.Level, v.Name, i)
 			used[k] = true
